@@ -3,7 +3,7 @@
     [canon] = the naive reference: among all adjacent pairs whose concatenation is a
     table entry merge the one with the least (merge id, position), repeat. *)
 From TU Require Import Base BPE_Model C03_Model C02_Inv C02_Loop C02_Proofs C02_Check C03_Sim C03_Proofs
-  MsgPack_Model C03_File C03_FileProofs C02_FileProofs.
+  MsgPack_Model C03_File C03_FileProofs C02_FileProofs C02_File C03_Limit C03_LimitProofs.
 From Coq Require Import Permutation.
 Open Scope N_scope.
 
@@ -110,3 +110,28 @@ Example ex_agree_file :
              (L [L [I 257]; L [I 130; I 147; I 97; I 98; I 99; I 1; I 146; I 97; I 98; I 0];
                  L [L [I 0; L [I 97; I 98]]; L [I 1; L [I 97; I 98; I 99]]]]) = true.
 Proof. vm_compute. reflexivity. Qed.
+
+(** * A vocabulary limit (third session; C03_Limit.v): [max_vocab_size] keeps the first [k] merges of the table
+    ([retain (id < limit)] = [firstn], C02_Props.retain_firstn); the canonical reference is the one of that prefix. *)
+
+(** The executable statement with a limit holds of the model's own output. *)
+Theorem check_run_limit : forall v, Forall valid_cp (v_str (v_nth 1 v)) -> check_C03l v (run_C03l v) = true.
+Proof. exact check_run_C03l_l. Qed.
+Print Assumptions check_run_limit.
+
+(** A [true] on an implementation output: its ids are exactly the canonical ids under the first [k] merges. *)
+Theorem check_limit_sound : forall v out k, keep_of v = Some k -> check_C03l v out = true ->
+  strip_file3 out = L [list_v n_v (canon_text (firstn k (v_table (v_nth 0 v))) (v_str (v_nth 1 v)))].
+Proof. exact check_C03l_sound. Qed.
+Print Assumptions check_limit_sound.
+
+(** Without the third field nothing changes. *)
+Theorem check_limit_none : forall v out, keep_of v = None -> check_C03l v out = check_C03f v out.
+Proof. exact check_C03l_nolimit. Qed.
+Print Assumptions check_limit_none.
+
+Example ex_limit : (* table {ab:0, abc:1}, text "abc", one merge kept: ab + c *)
+  run_C03l (L [L [L [I 97; I 98]; L [I 97; I 98; I 99]]; L [I 97; I 98; I 99]; L [I 1]]) = L [L [I 256; I 99]]
+  /\ run_C03l (L [L [L [I 97; I 98]; L [I 97; I 98; I 99]]; L [I 97; I 98; I 99]]) = L [L [I 257]]
+  /\ run_C03l (L [L [L [I 97; I 98]; L [I 97; I 98; I 99]]; L [I 97; I 98; I 99]; L [I 0]]) = L [L [I 97; I 98; I 99]].
+Proof. vm_compute. repeat split. Qed.
